@@ -105,7 +105,11 @@ ASSUMPTIONS = [
     'raise an exception of one of the framework\'s own classes (WebSocketDisconnected with/without code or a subclass of it, OperationNotAllowed, PayloadTypeError, ValueError incl. the invalid-close-code message, OSError, '
     'AssertionError) by hand or by a failing operation on a SECOND connection\'s WebSocket (relay) while the handled connection is in whatever state the script left it',
     'a custom error handler that returns without closing leaves the socket to the ASGI server (application responsibility); the close-always rule is checked for the default handlers and for custom handlers that close or re-raise HTTPError/HTTPStatus',
-    'send_text/send_data argument type checks (TypeError) are not part of the model',
+    'ARGUMENT TYPES of the send entry points: send_text(payload not an instance of str) / send_data(payload not bytes, bytearray or memoryview) / send_media(an object the handler cannot serialize) '
+    'crossed with the session state: the STATE error has precedence (OperationNotAllowed before accept; WebSocketDisconnected(code) once the socket was closed by the application, by a receive that '
+    'saw the disconnect, by a close() that recorded it, or by a translated send failure); on an accepted socket the call raises TypeError (send_media: the handler\'s error), hands nothing to the server and '
+    'leaves the socket usable; a str subclass is a str (sent as that text), bytearray / memoryview are sent as their bytes. While only the pump has seen the disconnect (the application has not observed it) the statement does not '
+    'order the two errors: TypeError (what the code does: _send looks at the flag after the type check) and WebSocketDisconnected are both accepted there',
     'accept() arguments: subprotocol None / str / another object; headers None, a list / tuple / list of lists / dict / generator of items; an item that is not a pair of ASCII str (bytes, None, int, non-ASCII, wrong length) '
     'is outside the documented types: the oracle demands an exception (any class) and nothing sent; the model pins the class CPython raises (ValueError for unpacking / UnicodeEncodeError, else "other"). '
     'A name that only str.lower() turns into sec-websocket-protocol (KELVIN SIGN) is non-ASCII, hence in that class',
@@ -136,11 +140,18 @@ RULE = ('random sessions: responder scripts of 0..8 ops x client scripts of 0..6
         'int / bytes, positional or keyword; headers None / empty list, tuple, dict / empty generator / 1-4 items as list, tuple, list of lists, dict, generator; names: sec-websocket-protocol (22 %) and 15 names one character away from it (20 %) in '
         'lower, UPPER, Canonical-Dash, exactly-one-upper-case-letter and random per-letter case, the KELVIN SIGN spelling, non-ASCII, bytes, None / int, plain names; values str incl. empty, bytes, non-ASCII, None / int; items of length 0, 1, 3, non-iterable; '
         'plus directed: the forbidden name in all-lower, all-upper, canonical and each of its 20 single-upper-case-letter spellings, and the near-miss names, x 5 containers x with/without subprotocol x first/second item x spec 2.0-2.4. '
+        'ARGUMENT TYPES x STATE: ops Wt / Wb = send_text(bytes / bytearray / memoryview / int / None / list) / send_data(str / a str subclass / list of ints / None / int), 10 % of the send_text steps hand over a str SUBCLASS, '
+        'Sx = send_media(a set); inserted at random positions (1-3 per session, 12 % of the random sessions: responder, middleware and custom-handler scripts, i.e. before accept, accepted, closed, client gone, with faults) and '
+        'in the payload sessions; plus directed: every one of 18 (entry point, argument type) pairs - 11 wrong types, str subclass, str, bytes, bytearray, memoryview, unserialisable media TEXT / BINARY - x 5 states '
+        '(handshake, accepted, closed by the app, client gone and observed by a receive, disconnect seen by the pump only) x catch documented errors / catch all x queue 0 / 4, each followed by a well-formed send_text. '
         'ABANDONED operations: ops Kt / Kd / Km (receive_text / receive_data / receive_media under asyncio.wait_for with a timeout that fires, or cancelled as a task, while really waiting) and Ks / Kb (send cancelled while the server call is in flight) '
         'followed by further receives, sends, closes, against clients that are idle at marked points (inbox marker w), max_receive_queue 0 / 1 / 4: 3000 (24000) random sessions, every continuation of <= 2 ops over 7 ops after each of 4 abandoned receives x 3 queue sizes x 3 client scripts, '
         'and K ops / idle points sprinkled into the random sessions (with middleware, faults, custom handlers). '
         'non-trivial = at least one event was handed to the server\'s send; distinct = distinct driver line (configuration + scripts + observed flags)')
-PARTIAL = ('whether an abandonable receive had to wait (was parked and cancelled) is, like the disconnect flag, an observation of the run fed to the model (the waiter bookkeeping of a cancelled receive is C18\'s Wb / Wu models); the independent oracle decides '
+PARTIAL = ('the isinstance checks of send_text / send_data are not a constructor of the models: the kind-level model Ws has no such operation (sessions containing a wrongly typed send are compared with Wp only), '
+           'and the Wp correspondence represents the call as the model operation of the same shape - `_require_accepted()`, then the argument is refused before `_send` runs - i.e. sendMedia with an argument its serializer rejects '
+           '(token Smt!; covered by Wp.send_media_serialize_error and, for the state precedence, by requireAccepted in Ws.wrong_state_send); the exact error class (TypeError) and the (argument type, state) table are decided by the independent oracle only. '
+           'whether an abandonable receive had to wait (was parked and cancelled) is, like the disconnect flag, an observation of the run fed to the model (the waiter bookkeeping of a cancelled receive is C18\'s Wb / Wu models); the independent oracle decides '
            'from the client script alone whether it must have waited. A send cancelled in flight is not a constructor of the model: the correspondence represents it as a server send raising an untranslated exception which the script catches '
            '(fail=<that call> fault=other) - both leave the socket untouched because _send handles only Exception; at most one per session. Wa pins CPython\'s exception classes for undocumented argument types via a table in the model (str.lower of non-ASCII code points: '
            'U+212A is the only one that becomes ASCII - checked over all code points on every run). '
@@ -783,7 +794,7 @@ def run(ctx):
         if m.get('type') != 'websocket.send':
             return render(m)
         keys = sorted(k for k in m if k != 'type')
-        if keys == ['text'] and type(m['text']) is str:
+        if keys == ['text'] and isinstance(m['text'], str):      # a str subclass is a str: the event carries the same text
             return 'snd:t:' + hx(m['text'].encode('utf-8'))
         if keys == ['bytes'] and type(m['bytes']) is bytes:
             return 'snd:b:' + hx(m['bytes'])
@@ -893,7 +904,11 @@ def run(ctx):
                 if var % 2:
                     rec['submitted'] = ('media', pay['doc']); await ws.send_media(pay['doc'])
                 else:
-                    rec['submitted'] = ('text', pay['text']); await ws.send_text(pay['text'])
+                    rec['submitted'] = ('text', pay['text']); await ws.send_text(StrSub(pay['text']) if st.get('sub') else pay['text'])
+            elif tok in ('Wt', 'Wb'):      # a payload of the wrong type
+                p = bad_payload(st['bad'], st['pay']); rec['submitted'] = ('badtype', st['bad'])
+                if tok == 'Wt': await ws.send_text(p)
+                else: await ws.send_data(p)
             elif tok == 'Sb':
                 pay = st['pay']
                 if var % 2 and spec['binh']:
@@ -1016,7 +1031,7 @@ def run(ctx):
                     await do(ws, st, rec)
                     rec['outcome'] = 'ok'; rec['c1'] = len(o['calls'])
                 except Exception as e:  # noqa
-                    rec['outcome'] = exname(e); rec['c1'] = len(o['calls'])
+                    rec['outcome'] = exname(e); rec['c1'] = len(o['calls']); rec['exc'] = type(e).__name__
                     if isinstance(e, Abandoned):
                         continue            # the responder gave the operation up and goes on
                     if not (st['catch'] == 2 or (st['catch'] == 1 and isinstance(e, CATCH))):
@@ -1188,6 +1203,9 @@ def run(ctx):
         if tok == 'St': return 'Smt' + doc_tok(pay['doc']) if var % 2 else 'St' + hx(pay['text'].encode('utf-8'))
         if tok == 'Sb': return 'Smb' + doc_tok(pay['doc']) if var % 2 and spec['binh'] else 'Sb' + hx(pay['data'])
         if tok == 'Sx': return 'Smt!' if var % 2 else 'Smb!'
+        # a wrongly typed send_text / send_data is, for the model, the send whose ARGUMENT is refused after the state check and before _send
+        # (`_require_accepted(); raise`): the operation sendMedia with an argument its serializer rejects
+        if tok in ('Wt', 'Wb'): return 'Smt!'
         if tok == 'Sn': return 'Smb' + doc_tok(pay['doc'])
         if tok == 'Ks': return 'St' + hx(pay['text'].encode('utf-8'))
         if tok == 'Kb': return 'Sb' + hx(pay['data'])
@@ -1287,6 +1305,7 @@ def run(ctx):
             calls = o['calls'][r['c0']:r['c1']]
             lostq = spec['q'] > 0 and r['handed'] is not None
             where = f"{r['who']} op {tok} in state {st}{' (disconnect delivered to the pump)' if lostq else ''}"
+            r['ost'] = 'accepted_pump_saw_disconnect' if (lostq and st == 'accepted') else st
 
             def one_call(kind, on_close=False):
                 """exactly one send call of the given type was made; returns (error text | None, succeeded?)"""
@@ -1348,6 +1367,22 @@ def run(ctx):
                     if out != want: return f'{where}: got {out}, the documented outcome is {want}'
                     continue
                 if out != want or calls: return f'{where}: got {out} with events {[c["r"] for c in calls]}, the documented outcome is {want} and nothing sent'
+            elif k == 'W':
+                # send_text / send_data with a payload of the wrong type.  "Operations in the wrong state raise the documented errors": the STATE of the
+                # connection comes first (OperationNotAllowed before accept, WebSocketDisconnected once closed or lost - what ends a responder's send loop);
+                # on an accepted socket the wrong payload type is reported (TypeError); in no case does an event reach the server
+                bad_t = r.get('submitted', ('', '?'))[1]
+                where += f" {'send_text' if tok == 'Wt' else 'send_data'}(<{bad_t}>)"
+                got = 'TypeError' if (out == 'PY' and r.get('exc') == 'TypeError') else (out if out != 'PY' else 'PY(' + str(r.get('exc')) + ')')
+                if calls: return f'{where}: a payload of the wrong type must not reach the server, which saw {[c["m"] for c in calls]} (outcome {got})'
+                if st == 'handshake': want = 'ONA'
+                elif st == 'closed': want = f'WSD:{code or 1000}'
+                elif lostq and out == f"WSD:{r['handed'] or 1000}":
+                    # the pump has seen the disconnect, the application has not: the statement does not order the two errors here; either is accepted
+                    st = 'closed'; code = r['handed']; continue
+                else: want = 'TypeError'
+                if got != want: return f'{where}: got {got}, the documented outcome is {want} and nothing sent'
+                continue
             elif k == 'S':
                 if st == 'handshake': want = 'ONA'
                 elif st == 'closed': want = f'WSD:{code or 1000}'
@@ -1591,12 +1626,14 @@ def run(ctx):
         case['server'] = {'close_codes_refused': spec.get('refuse', []), 'send_raises': repr(mkfault(spec['fault'], {'code': spec['err']})), 'at_call': spec['fail']}
         def shown(s):
             base = (s['tok'], s['catch'], s['var'], s['pay'])
+            if s['tok'] in ('Wt', 'Wb'): return base + ({'wrong_type_payload': s['bad'], 'call': ('send_text' if s['tok'] == 'Wt' else 'send_data') + '(%s)' % ('memoryview(%r)' % bytes(s['pay']['data']) if s['bad'] == 'memoryview' else repr(bad_payload(s['bad'], s['pay'])))},)
+            if s.get('sub'): return base + ({'payload_is_a_str_subclass': True},)
             if s['tok'] == 'Ag': return ('Ag', s['catch'], s['var'], {'subprotocol': s['acc']['sub'], 'headers_container': s['acc']['container'], 'header_items': s['acc']['items']})
             return base
         case['script'] = [shown(s) for s in spec['script']]
         case['mwreq'] = [shown(s) for s in spec['mwreq']]
         case['mwres'] = [shown(s) for s in spec['mwres']]
-        case['custom'] = None if spec['custom'] is None else {'ws': spec['custom']['ws'], 'steps': [(x['tok'], x['catch'], x['pay']) for x in spec['custom']['steps']]}
+        case['custom'] = None if spec['custom'] is None else {'ws': spec['custom']['ws'], 'steps': [shown(x) for x in spec['custom']['steps']]}
         seen = {'server_saw': [render_wp(c['m']) + ('' if c['ok'] else '!') for c in o['calls']],
                 'ops': [(r['who'], r['tok'], (r['outcome'] + (' (parked, then %s)' % ('asyncio.wait_for timeout' if r.get('how') == 'wait_for' else 'task.cancel()'))) if r['outcome'] == 'CAN' else outcome_wp(r))
                         for r in o['steps']], 'escaped': o['esc']}
@@ -1648,6 +1685,12 @@ def run(ctx):
                 ctx.count('abandoned_%s_%s_q%d' % ('receive' if r['tok'][1] in 'tdm' else 'send_in_flight', r.get('how'), spec['q']))
             elif r['tok'][0] == 'K' and r['tok'][1] in 'tdm' and r['outcome'].startswith('ok'):
                 ctx.count('abandonable_receive_found_a_message')
+            if r['tok'] in ('Wt', 'Wb') and 'ost' in r:
+                entry = 'send_text' if r['tok'] == 'Wt' else 'send_data'
+                ctx.count('wrong_type_%s_in_%s' % (entry, r['ost'])); ctx.count('wrong_type_%s_%s' % (entry, r['submitted'][1]))
+            elif r['tok'] == 'Sx' and 'ost' in r: ctx.count('unserialisable_send_media_in_' + r['ost'])
+            elif r['tok'] == 'St' and r.get('submitted', ('',))[0] == 'text' and 'ost' in r and any(s_.get('sub') for s_ in spec['script'] + spec['mwreq'] + spec['mwres']):
+                ctx.count('session_with_str_subclass_send_text')
             if r['tok'] == 'Ag':
                 a = r['acc']
                 ctx.count('accept_args_headers_' + str(a['container']))
@@ -1772,6 +1815,9 @@ def run(ctx):
         for j, spec in enumerate(gen_server_directed()):
             if j % k == i:
                 await one(spec, 'server_directed')
+        for j, spec in enumerate(gen_argtype_directed()):
+            if j % k == i:
+                await one(spec, 'argtype_directed')
         maxlen = 2 if ctx.quick else 3
         for j, spec in enumerate(gen_exhaustive(maxlen)):
             if j % k == i:
